@@ -15,6 +15,17 @@ CLAIMS = {
   'note': 'Trusted: Lean kernel; axioms propext/Classical.choice/Quot.sound; the Python->Lean translator; real-number semantics (no rounding); hand model of to_mask assembly '
           '(Model/Mask.lean) tied by correspondence only; the compiled geometry .so cannot be rebuilt here (no Cython) so .pyx edits are seen only through the translation.',
  },
+ 'C02': {
+  'design_ref': 'DESIGN.md §5 C02',
+  'technique': 'Lean 4 theorems on a code-shaped model of _get_overlap_cutouts/do_photometry/area_overlap (parametric in the weight map) + correspondence on the real do_photometry',
+  'text': 'Proved in Lean for every weight map w (hence every aperture type/method), every image shape, mask and data: the pixels entering the sum are exactly '
+          '{in box, in image, w>0, unmasked} each with weight w(y-iymin, x-ixmin) (goodPixels_spec, built on the generated get_overlap_slices); the result is NaN iff the box '
+          'misses the image (apSum_none_iff, apSum_nan_iff_no_common_pixel); sums are blind to values outside that pixel set incl. NaN/inf (apSum_blind) and linear in the data '
+          '(wsum_linear); area_overlap = sum of w over the same pixels when w>=0 (areaOverlap_eq_good_weight_sum). The model (Model/ApSum.lean, IEEE special values in Model/V.lean) is '
+          'hand-written and tied to the implementation by running both on the same dyadic images/masks/errors/apertures (exact NaN/inf pattern, 1e-11 relative on sums). '
+          'Batch==single, list==individual, NDData==arrays, sky==to_pixel are checked on the implementation only (probe, no theorem).',
+  'note': 'Trusted: Lean kernel + 3 standard axioms; translator for get_overlap_slices; hand model tied by differential testing only; sqrt, WCS, float summation order not modelled.',
+ },
 }
 
 _todo = 'check not built yet in this round (see DESIGN.md §10 build order); not claimed until its machinery is committed'
